@@ -129,6 +129,12 @@ pub fn set_armed(on: bool) {
     ARMED.with(|a| a.set(on));
     with(|e| e.armed = on);
 }
+/// Pause / resume choice mode without touching prefix or log.
+pub fn set_choosing_flag(on: bool) {
+    CHOOSING.with(|a| a.set(on));
+    with(|e| e.choices.enabled = on);
+}
+
 /// Enable / disable choice mode (mirrors `Env::choices.enabled`).
 pub fn set_choosing(on: bool, prefix: Vec<u8>) {
     CHOOSING.with(|a| a.set(on));
